@@ -25,6 +25,8 @@ pub struct Lazy<T> {
     // No need to traverse this thread reference as any thread having a reference to this `Sender`
     // would also directly own a reference to the `Thread`
     thread: GcPtr<Thread>,
+    /// Whether this value was copied into the heap of the global state (as part of a module)
+    in_global_heap: bool,
     _marker: PhantomData<T>,
 }
 
@@ -48,6 +50,7 @@ where
             let data: Box<dyn Userdata> = Box::new(Lazy {
                 value: Mutex::new(cloned_value),
                 thread: GcPtr::from_raw(deep_cloner.thread()),
+                in_global_heap: deep_cloner.gc().generation().is_root(),
                 _marker: PhantomData::<A>,
             });
             deep_cloner.gc().alloc(Move(data))
@@ -117,7 +120,11 @@ fn force(
                 match function.call_async(()).await {
                     Ok(value) => {
                         {
-                            let value = match lazy.thread.deep_clone_value(&vm, value.get_value()) {
+                            let value = match lazy.thread.deep_clone_value_for_cell(
+                                lazy.in_global_heap,
+                                &vm,
+                                value.get_value(),
+                            ) {
                                 Ok(value) => value,
                                 Err(err) => return RuntimeResult::Panic(err.to_string().into()),
                             };
@@ -190,6 +197,7 @@ fn lazy(f: OpaqueValue<&Thread, fn(()) -> A>) -> Lazy<A> {
         Lazy {
             value: Mutex::new(Lazy_::Thunk(f.get_value().clone_unrooted())),
             thread: GcPtr::from_raw(f.vm()),
+            in_global_heap: false,
             _marker: PhantomData,
         }
     }
